@@ -59,8 +59,184 @@ def seeds() -> dict:
                     break
             pos += size
         out[name] = data[:cut]
+    out.update(layout_seeds())
     _SEEDS = out
     return out
+
+
+# ------------------------------------------------------------------ layout classes
+
+def _fragment(seq: int, track_id: int, decode_time: int, n: int, dur: int, size: int, trun_flags: int,
+              enc: str | None, rng) -> bytes:
+    """one `moof mdat` whose tfhd carries default duration / size / flags, so that the trun
+    box only holds the per-sample fields selected by `trun_flags` (none for 0).  `enc`:
+      None          clear
+      'default'     saiz with default_sample_info_size = 8 (no table), senc of bare IVs
+      'table'       saiz with a per-sample size table, senc with one subsample per sample
+      'empty'       saiz with default size 0 and sample_count 0, senc with 0 entries
+    """
+    from mp4synth import box, full, u8, u16, u32, s32
+    tfhd = full("tfhd", 0, 0x020000 | 0x08 | 0x10 | 0x20, u32(track_id), u32(dur), u32(size), u32(0x02000000))
+    tfdt = full("tfdt", 0, 0, u32(decode_time))
+    mfhd = full("mfhd", 0, 0, u32(seq))
+    payload = bytes(rng.randrange(256) for _ in range(n * size))
+
+    def enc_boxes(saio_offset: int) -> bytes:
+        if enc is None:
+            return b""
+        if enc == "default":
+            entries = [bytes(rng.randrange(256) for _ in range(8)) for _ in range(n)]
+            saiz = full("saiz", 0, 0, u8(8), u32(n))
+            senc = full("senc", 0, 0, u32(n), *entries)
+        elif enc == "table":
+            entries = [bytes(rng.randrange(256) for _ in range(8)) + u16(1) + u16(1) + u32(size - 1) for _ in range(n)]
+            saiz = full("saiz", 0, 0, u8(0), u32(n), bytes(len(e) for e in entries))
+            senc = full("senc", 0, 2, u32(n), *entries)
+        else:
+            saiz = full("saiz", 0, 0, u8(0), u32(0))
+            senc = full("senc", 0, 0, u32(0))
+        saio = full("saio", 0, 0, u32(1), u32(saio_offset))
+        return saiz + saio + senc
+
+    def moof(data_offset: int, saio_offset: int) -> bytes:
+        b = u32(n)
+        if trun_flags & 0x001:
+            b += s32(data_offset)
+        if trun_flags & 0x004:
+            b += u32(0x02000000)
+        for _ in range(n):
+            if trun_flags & 0x100:
+                b += u32(dur)
+            if trun_flags & 0x200:
+                b += u32(size)
+            if trun_flags & 0x400:
+                b += u32(0x01010000)
+            if trun_flags & 0x800:
+                b += u32(0)
+        trun = full("trun", 0, trun_flags, b)
+        return box("moof", mfhd, box("traf", tfhd, tfdt, trun, enc_boxes(saio_offset)))
+
+    probe = moof(0, 0)
+    # senc sample entries start 16 bytes into the senc box, which is the last box of the traf
+    senc_len = 0 if enc is None else len(enc_boxes(0)) - enc_boxes(0).rindex(b"senc") + 4
+    saio_off = len(probe) - senc_len + 16 if enc is not None else 0
+    return moof(len(probe) + 8, saio_off) + box("mdat", payload)
+
+
+def layout_seeds() -> dict:
+    """minimal valid files of the *layout classes* the fixtures and mp4synth's default writer do
+    not have: every subset class of the trun per-sample flags (including none: the samples take
+    no space in the trun box), saiz with and without a size table, senc with and without
+    subsamples / with no entries, a version-1 pssh with a KID list, sidx, emsg"""
+    import random
+    from mp4synth import box, full, u32
+    out = {}
+    rng = random.Random("c16:layout")
+    clear = mp4synth.make_track("video", 1000, [2000, 2000], samples_per_segment=2, seed=611, payload_size=16)
+    encd = mp4synth.make_track("audio", 48000, [2048, 2048], samples_per_segment=2, seed=612, payload_size=16,
+                               encrypted=True)
+    init_clear = clear[:clear.index(b"moof") - 4]
+    init_enc = encd[:encd.index(b"moof") - 4]
+    for flags in (0x000, 0x100, 0x200, 0x400, 0x800, 0x300, 0xF00, 0x004):
+        frags = b"".join(_fragment(1 + k, 1, 2000 * k, 2, 1000, 12, 0x001 | flags, None, rng) for k in range(3))
+        out[f"lay_trun_{flags:03x}"] = init_clear + frags
+    for enc in ("default", "table", "empty"):
+        frags = b"".join(_fragment(1 + k, 1, 2048 * k, 2, 1024, 12, 0x001, enc, rng) for k in range(3))
+        out[f"lay_senc_{enc}"] = init_enc + frags
+    kids = b"".join(bytes([k]) * 16 for k in (1, 2))
+    pssh1 = full("pssh", 1, 0, bytes(range(16)), u32(2), kids, u32(4), b"data")
+    sidx = full("sidx", 0, 0, u32(1), u32(1000), u32(0), u32(0), b"\0\0", b"\0\1", u32(100), u32(2000), u32(0x90000000))
+    frags = b"".join(_fragment(1 + k, 1, 2000 * k, 2, 1000, 12, 0x001, None, rng) for k in range(3))
+    out["lay_pssh_v1_sidx"] = init_clear + pssh1 + sidx + frags
+    return out
+
+
+def _vf(data: bytes, b) -> tuple:
+    v = data[b.payload_start:b.payload_start + 4]
+    return (v[0], int.from_bytes(v[1:4], "big")) if len(v) == 4 else (0, 0)
+
+
+COUNT_EDITS = [0, 1, 2, 255, 256, 65535, 65536, 1 << 24, (1 << 31) - 1, 1 << 31, (1 << 32) - 1]
+
+
+def count_fields(data: bytes, per_type: int = 2) -> list:
+    """(absolute offset, width in bytes, box type, field) of the count / size fields that drive a
+    loop of the parser, located with the independent walker (ISO/IEC 14496-12, 23001-7)"""
+    try:
+        boxes = mp4walk.walk(data)
+    except Exception:
+        return []
+    out, seen = [], {}
+
+    def add(b, rel, width, field):
+        key = (b.type, field)
+        seen[key] = seen.get(key, 0) + 1
+        if seen[key] <= per_type and b.payload_start + rel + width <= b.end:
+            out.append((b.payload_start + rel, width, b.type, field))
+
+    def rec(bs):
+        for b in bs:
+            ver, flags = _vf(data, b)
+            t = b.type
+            if t == "trun":
+                add(b, 4, 4, "sample_count")
+            elif t == "saiz":
+                o = 4 + (8 if flags & 1 else 0)
+                add(b, o, 1, "default_sample_info_size")
+                add(b, o + 1, 4, "sample_count")
+            elif t == "saio":
+                add(b, 4 + (8 if flags & 1 else 0), 4, "entry_count")
+            elif t == "senc" or b.is_piff:
+                o = 16 if b.is_piff else 0
+                add(b, o + 4, 4, "sample_count")
+                if flags & 2:
+                    add(b, o + 8 + 8, 2, "subsample_count")
+            elif t == "sidx":
+                add(b, 4 + 8 + (8 if ver == 0 else 16) + 2, 2, "reference_count")
+            elif t in ("stts", "stsc", "stco", "co64", "ctts", "stss", "stsd", "dref", "elst", "sbgp", "sgpd"):
+                add(b, 4, 4, "entry_count")
+            elif t == "stsz":
+                add(b, 4, 4, "sample_size")
+                add(b, 8, 4, "sample_count")
+            elif t == "pssh":
+                if ver > 0:
+                    add(b, 4 + 16, 4, "kid_count")
+                    kc = int.from_bytes(data[b.payload_start + 20:b.payload_start + 24], "big")
+                    add(b, 4 + 16 + 4 + 16 * kc, 4, "data_size")
+                else:
+                    add(b, 4 + 16, 4, "data_size")
+            elif t == "avcC":
+                add(b, 5, 1, "numOfSequenceParameterSets")
+            elif t == "hvcC":
+                add(b, 22, 1, "num_arrays")
+            elif t == "emsg":
+                add(b, 4 + (0 if ver == 0 else 4), 4, "first_field")
+            rec(b.children)
+    rec(boxes)
+    return out
+
+
+def count_cases(seed_name: str, data: bytes, values=None) -> list:
+    """every count field of the seed × every edit value that differs from the stored one"""
+    out = []
+    for at, width, typ, field in count_fields(data):
+        cur = int.from_bytes(data[at:at + width], "big")
+        for v in (values or COUNT_EDITS):
+            v &= (1 << (8 * width)) - 1
+            if v == cur:
+                continue
+            b = bytearray(data)
+            b[at:at + width] = v.to_bytes(width, "big")
+            out.append(({"seed": seed_name, "op": "count", "box": typ, "field": field, "at": at, "width": width,
+                         "new": v}, bytes(b)))
+    # one case per (field, value)
+    uniq, seen = [], set()
+    for d, b in out:
+        k = (d["at"], d["new"])
+        if k not in seen:
+            seen.add(k)
+            uniq.append((d, b))
+    return uniq
 
 
 def box_headers(data: bytes) -> list:
@@ -138,6 +314,8 @@ def rebuild(desc: dict) -> bytes:
     elif desc["op"] == "flip":
         for pos, bit in desc["flips"]:
             b[pos] ^= 1 << bit
+    elif desc["op"] == "count":
+        b[desc["at"]:desc["at"] + desc["width"]] = desc["new"].to_bytes(desc["width"], "big")
     elif desc["op"] == "none":
         pass
     return bytes(b)
@@ -145,27 +323,43 @@ def rebuild(desc: dict) -> bytes:
 
 # ------------------------------------------------------------------ library target
 
-def run_lib(data: bytes, lazy: bool) -> dict:
-    """→ {"outcome": "ok" | "raise:<Type>" | "timeout" | "fatal:<Type>", "seconds": s}"""
+LIB_TARGETS = ("index", "lazy", "full")
+
+
+def run_lib(data: bytes, target) -> dict:
+    """→ {"outcome": "ok" | "raise:<Type>" | "timeout" | "fatal:<Type>", "seconds": s}
+    target: 'index' = what MediaFile.parse_media_file does (default options + Representation.load),
+            'lazy'  = what load_fragment does for a media request (mode rw, lazy, touch, encode),
+            'full'  = what the inspect and segment-info pages do (lazy_load=False, everything parsed, toJSON)
+    (False / True are accepted for 'index' / 'lazy')"""
     from dashlive.mpeg import mp4
     from dashlive.mpeg.dash.representation import Representation
     from dashlive.utils.buffered_reader import BufferedReader
-    old = signal.signal(signal.SIGALRM, c16_http._alarm)
-    signal.setitimer(signal.ITIMER_REAL, LIB_LIMIT)
+    target = {False: "index", True: "lazy"}.get(target, target)
+    old = c16_http.arm(LIB_LIMIT)
     t0 = time.perf_counter()
     try:
         try:
             src = BufferedReader(io.BytesIO(data), buffersize=16384)
-            if lazy:
+            if target == "lazy":
                 opts = mp4.Options(mode="rw", lazy_load=True)
+                opts.iv_size = 8
                 atoms = mp4.Mp4Atom.load(src, options=opts)
                 for a in atoms:        # touch what generate_media_segment touches
                     if a.atom_type == "moof":
                         _ = a.traf.tfhd
                         _ = a.traf.trun.flags
                         _ = a.mfhd.sequence_number
+                        for name in ("senc", "saiz", "saio"):
+                            a.traf.find_child(name)
                 wrap = mp4.Wrapper(children=atoms)
                 wrap.encode()
+            elif target == "full":
+                opts = mp4.Options(lazy_load=False)
+                opts.iv_size = 8
+                wrap = mp4.Mp4Atom.load(src, options=opts, use_wrapper=True)
+                for ch in wrap.children:
+                    ch.toJSON(exclude={"parent", "options"})
             else:
                 atoms = mp4.Mp4Atom.load(src)
                 Representation.load("c16fuzz", atoms)
@@ -177,14 +371,14 @@ def run_lib(data: bytes, lazy: bool) -> dict:
         except Exception as e:
             out = f"raise:{type(e).__name__}"
     finally:
-        signal.setitimer(signal.ITIMER_REAL, 0)
-        signal.signal(signal.SIGALRM, old)
+        c16_http.disarm(old)
     return {"outcome": out, "seconds": time.perf_counter() - t0}
 
 
 def lib_violation(res: dict) -> str | None:
     if res["outcome"] == "timeout":
-        return f"no result within {LIB_LIMIT:.0f} s"
+        return (f"no result within {LIB_LIMIT:.0f} s (or the process grew by more than "
+                f"{c16_http.MEM_LIMIT >> 20} MiB): the parser runs without bound")
     if res["outcome"].startswith("fatal:"):
         return res["outcome"]
     return None
@@ -220,8 +414,7 @@ class Uploader:
 
     def _do(self, label, method, url, **kw) -> dict:
         del c16_http._LAST_EXC[:]
-        old = signal.signal(signal.SIGALRM, c16_http._alarm)
-        signal.setitimer(signal.ITIMER_REAL, c16_http.TIME_LIMIT)
+        old = c16_http.arm(c16_http.TIME_LIMIT)
         t0 = time.perf_counter()
         js = None
         try:
@@ -238,8 +431,7 @@ class Uploader:
             status = c16_http.CLIENT_ERROR
             c16_http._LAST_EXC.append((type(e).__name__, "client", str(e)[:160]))
         finally:
-            signal.setitimer(signal.ITIMER_REAL, 0)
-            signal.signal(signal.SIGALRM, old)
+            c16_http.disarm(old)
         exc = c16_http._LAST_EXC[-1] if c16_http._LAST_EXC else None
         return {"step": label, "status": status, "seconds": time.perf_counter() - t0, "exc": exc, "json": js}
 
@@ -256,8 +448,7 @@ class Uploader:
                              content_type="multipart/form-data")]
         from dashlive.server.requesthandler.media_management import InspectMediaFile
         del c16_http._LAST_EXC[:]
-        old = signal.signal(signal.SIGALRM, c16_http._alarm)
-        signal.setitimer(signal.ITIMER_REAL, c16_http.TIME_LIMIT)
+        old = c16_http.arm(c16_http.TIME_LIMIT)
         t0 = time.perf_counter()
         status, exc = 0, None
         try:
@@ -281,8 +472,7 @@ class Uploader:
         except c16_http.Timeout:
             status = 0
         finally:
-            signal.setitimer(signal.ITIMER_REAL, 0)
-            signal.signal(signal.SIGALRM, old)
+            c16_http.disarm(old)
         return [{"step": "inspect", "status": status, "seconds": time.perf_counter() - t0, "exc": exc, "json": None}]
 
     _ASYNC = None
